@@ -55,7 +55,7 @@ def plan(tier, seed):
         shards.append({"part": "scan", "lo": lo, "hi": lo + step, "n": n_entries, "tuple": 2,
                        "bound": f"trees<={n_entries} entries"})
     shards.append({"part": "feature", "tuple": 2, "bound": "feature trees"})
-    return {"shards": shards, "require_nonzero": ["convert:match", "convert:nomatch", "scan:partial", "scan:none", "regex", "glob", "module_path-below-root"]}
+    return {"shards": shards, "require_nonzero": ["convert:match", "convert:nomatch", "scan:partial", "scan:none", "regex", "glob", "module_path-below-root", "externals-included"]}
 
 
 # ------------------------------------------------------------------------- (a) conversion
@@ -166,6 +166,9 @@ def patterns_for(base, entries, tuple_size):
         stem = name[:-3] if name.endswith(".py") else name
         absolute = os.path.join(base, "top", rel)
         globs += ["*" + name, "*" + stem + "*", "*/" + name, "*/" + stem + "/*", absolute, absolute + "*", stem, stem + "*", "**" + name, "*" + name + "**"]
+        # the same text in another letter case matches nothing (paths are compared case-sensitively)
+        globs += ["*" + name.upper(), "*" + stem.capitalize() + "*"]
+        regexes += [".*" + re.escape(name.upper()), ".*/" + re.escape(stem.capitalize()) + "(/.*|\\.py)?$"]
         regexes += [".*" + re.escape(name), ".*/" + re.escape(name) + "$", ".*/" + re.escape(stem) + "/.*", re.escape(absolute), ".*/" + re.escape(stem[:1]),
                     re.escape(stem)]
     globs = list(dict.fromkeys(globs))
@@ -177,6 +180,12 @@ def patterns_for(base, entries, tuple_size):
         out += [("glob", c) for c in itertools.combinations(lim_g, r)]
         out += [("regex", c) for c in itertools.combinations(lim_r, r)]
     return out
+
+
+def _obs(o):
+    if o[0] != "OK":
+        return list(o[:2])
+    return {"modules": sorted(o[1][0]), "imports": sorted(map(list, o[1][1]))}
 
 
 def check_tree(base, entries, tuple_size, res, only=None):
@@ -202,6 +211,16 @@ def check_tree(base, entries, tuple_size, res, only=None):
                 opts = {"exclusions": None, "regex_exclusions": tuple(pats)}
             m = model_scan(files, dirs, "top", mp_rel, base, excluded)
             out = call(lambda: observed(scan(root, mp, **opts)))
+            if len(pats) == 1 and mp_rel == "top":
+                # option combination: the same exclusion with external libraries included (these trees import
+                # nothing external, so the architecture must be exactly the same)
+                out_ext = call(lambda: observed(scan(root, mp, exclude_external_libraries=False, **opts)))
+                if res is not None:
+                    res.transitions += 1
+                    res.stats["externals-included"] += 1
+                if out_ext[0] != out[0] or (out[0] == "OK" and out_ext[1] != out[1]):
+                    viol.append(("exclusion-differs-with-external-libraries-included", case_key, _obs(out), _obs(out_ext)))
+                    continue
             if res is not None:
                 res.states += 1
                 res.transitions += 1
